@@ -70,14 +70,33 @@ func (c *lockedCache) Put(p string, t *jet.Template) {
 
 // yieldWriter is a per-client writer; every Write is a scheduling point.
 type yieldWriter struct {
-	buf []byte
-	s   *simrt.Sched
+	buf    []byte
+	s      *simrt.Sched
+	failAt int // this Write fails (0: none); s == nil: no scheduler (alone-runs)
+	n      int
 }
 
+var errWriterFault = fmt.Errorf("INJ-write: simulated writer failure")
+
 func (w *yieldWriter) Write(p []byte) (int, error) {
-	w.s.Yield("writer:Write")
+	if w.s != nil {
+		w.s.Yield("writer:Write")
+	}
+	w.n++
+	if w.failAt > 0 && w.n == w.failAt {
+		return 0, errWriterFault
+	}
 	w.buf = append(w.buf, p...)
 	return len(p), nil
+}
+
+// faultPlan decodes the per-execution fault number: 1-3 = that fail() call raises an error; 4-6 = the
+// destination's 2nd / 4th / 6th Write fails
+func faultPlan(at int) (fnAt, writeAt int) {
+	if at >= 4 {
+		return 0, (at - 3) * 2
+	}
+	return at, 0
 }
 
 // ---- operations
@@ -116,6 +135,9 @@ func (o op) String() string {
 	return fmt.Sprintf("%s(%s%s%s)", opNames[o.kind], o.tmpl, o.key, func() string {
 		if o.val != "" {
 			return "=" + o.val
+		}
+		if o.fault > 3 {
+			return fmt.Sprintf(" write#%d-fails", (o.fault-3)*2)
 		}
 		if o.fault > 0 {
 			return fmt.Sprintf(" fail#%d", o.fault)
@@ -261,26 +283,30 @@ func RunC11(env *sim.Env) {
 		if err != nil {
 			return "", false
 		}
-		var buf strings.Builder
+		fnAt, writeAt := faultPlan(at)
+		buf := &yieldWriter{failAt: writeAt}
 		var xerr error
-		fp := &failPlan{at: at, tag: "TAG"}
-		if pc := sim.Guard(func() { xerr = tm.Execute(&buf, vars(d, fp), d.Data()) }); pc != nil {
+		fp := &failPlan{at: fnAt, tag: "TAG"}
+		if pc := sim.Guard(func() { xerr = tm.Execute(buf, vars(d, fp), d.Data()) }); pc != nil {
 			return "", false
 		}
-		if at > 0 && fp.calls < at {
+		if fnAt > 0 && fp.calls < fnAt {
 			return "", false // this execution does not reach that many fail() calls
+		}
+		if writeAt > 0 && buf.n < writeAt {
+			return "", false // nor that many writes
 		}
 		e := ""
 		if xerr != nil {
 			e = xerr.Error()
 		}
-		return norm(buf.String()) + "\x00" + norm(e), true
+		return norm(string(buf.buf)) + "\x00" + norm(e), true
 	}
 	for _, name := range w.stable {
 		for di, d := range w.datas {
-			for at := 0; at <= 3; at++ {
-				if at > 0 && !withFaults {
-					break
+			for at := 0; at <= 6; at++ {
+				if at > 0 && at <= 3 && !withFaults {
+					continue
 				}
 				set := jet.NewSet(newLoader())
 				set.AddGlobal("gc", "const")
@@ -466,7 +492,9 @@ func RunC11(env *sim.Env) {
 				continue
 			}
 			want = strings.ReplaceAll(want, "TAG", r.op.tag)
-			if r.op.fault > 0 {
+			if r.op.fault > 3 {
+				env.Stat("fault:writer_error_in_concurrent_execution", 1)
+			} else if r.op.fault > 0 {
 				env.Stat("fault:function_error_in_concurrent_execution", 1)
 			}
 			got := norm(r.out) + "\x00" + norm(r.err)
@@ -541,8 +569,9 @@ func runOp(s *simrt.Sched, set *jet.Set, mem *jet.InMemLoader, w *world, c int, 
 		}
 	}
 	exec := func(tm *jet.Template, d gen.DataSpec) {
-		wr := &yieldWriter{s: s}
-		err := tm.Execute(wr, vars(d, &failPlan{at: o.fault, tag: o.tag}), d.Data())
+		fnAt, writeAt := faultPlan(o.fault)
+		wr := &yieldWriter{s: s, failAt: writeAt}
+		err := tm.Execute(wr, vars(d, &failPlan{at: fnAt, tag: o.tag}), d.Data())
 		r.out = string(wr.buf)
 		if err != nil {
 			r.err = err.Error()
